@@ -85,6 +85,14 @@ class SymU(object):
             self.src.tape.append(("cmpdet", thr, True, None))
             return True
         p = (thr - lo) / (hi - lo)
+        # a side of relative width < 1e-12 is float rounding of a threshold that
+        # is meant to coincide with the end of the interval, not a real branch
+        if p < 1e-12:
+            self.src.tape.append(("cmpdet", thr, False, None))
+            return False
+        if 1.0 - p < 1e-12:
+            self.src.tape.append(("cmpdet", thr, True, None))
+            return True
         k = self.src._branch("cmp", [p, 1.0 - p], {"thr": thr, "lo": lo, "hi": hi})
         if k == 0:
             self.box[1] = thr
